@@ -64,15 +64,50 @@ Theorem C12_closed_value_is_case : forall root_pi dawson tab nbase i j k (zeta a
 Proof. exact closed_value_is_case. Qed.
 Print Assumptions C12_closed_value_is_case.
 
-(* The j-recurrence (hypothesis SRj of C12_case_value) FROM the definition of the integrals: if T i j k is the improper integral
-   over (0, inf) of r^k exp(-zeta r^2 - a (r-A)^2 - b (r-B)^2) M_i(2aAr) M_j(2bBr) (existence is the hypothesis), then
-   T(i, j+2, k) = T(i, j, k) - (2j+3)/(2 bB) T(i, j+1, k-1) for every i, j, k: three-term recurrence of M_l, linearity and
-   uniqueness of the integral (Radial/RadialRec.v). *)
+(* The two recurrences C12_case_value assumes, FROM the definition of the integrals (Radial/RadialRec.v).  T i j k is the improper
+   integral over (0, inf) of F i j k r = r^k exp(-zeta r^2 - a (r-A)^2 - b (r-B)^2) M_i(2aAr) M_j(2bBr); that the integrals exist is
+   the hypothesis (is_RInt_gen ... (T i j k)); Fa is the filter of the lower end (at_point 0 or at_right 0).
+   R_j: three-term recurrence of M_l, linearity and uniqueness of the integral - for every i, j, k. *)
 From Coquelicot Require Import Coquelicot.
 From LV Require Import Bessel.BesselSpec Radial.RadialRec.
 Theorem C12_recurrence_j_from_the_integrals : forall (zeta a b A B : R), (0 < b * B)%R ->
+  forall (Fa : (R -> Prop) -> Prop) (FFa : ProperFilter Fa), Fa (fun u => (0 <= u)%R) ->
   forall T : nat -> nat -> Z -> R,
-  (forall i j k, is_RInt_gen (F zeta a b A B i j k) (at_point 0%R) (Rbar_locally p_infty) (T i j k)) ->
-  forall i j k, T i (S (S j)) k = (T i j k - (2 * INR j + 3) / (2 * (b * B)) * T i (S j) (k - 1)%Z)%R.
-Proof. exact T_rec_j. Qed.
+  (forall i j k, is_RInt_gen (F zeta a b A B i j k) Fa (Rbar_locally p_infty) (T i j k)) ->
+  forall (i j : nat) (k : Z), T i (S (S j)) k = (T i j k - (2 * INR j + 3) / (2 * (b * B)) * T i (S j) (k - 1)%Z)%R.
+Proof. intros zeta a b A B Hy Fa FFa HFa T HT. exact (T_rec_j zeta a b A B Hy Fa HFa T HT). Qed.
 Print Assumptions C12_recurrence_j_from_the_integrals.
+(* R_i: one integration by parts.  With H(r) = r^k env(r) M_i(2aAr) M_{j+1}(2bBr), whose derivative is the combination of four integrands
+   (derivative rules of M_l, C14), and H vanishing at both ends of (0, inf):
+     2 aA T(i+1, j+1, k) = (2 + j - i - k) T(i, j+1, k-1) + 2 (zeta+a+b) T(i, j+1, k+1) - 2 bB T(i, j, k). *)
+Theorem C12_recurrence_i_by_parts : forall (zeta a b A B : R), (0 < b * B)%R ->
+  forall (Fa : (R -> Prop) -> Prop) (FFa : ProperFilter Fa), Fa (fun u => (0 <= u)%R) ->
+  forall T : nat -> nat -> Z -> R,
+  (forall i j k, is_RInt_gen (F zeta a b A B i j k) Fa (Rbar_locally p_infty) (T i j k)) ->
+  (0 < a * A)%R ->
+  forall (i j : nat) (k : Z), Fa (fun u => (0 < u)%R) ->
+  filterlim (H zeta a b A B i j k) Fa (locally 0%R) -> filterlim (H zeta a b A B i j k) (Rbar_locally p_infty) (locally 0%R) ->
+  (2 * (a * A) * T (S i) (S j) k
+   = IZR (2 + Z.of_nat j - Z.of_nat i - k) * T i (S j) (k - 1)%Z + 2 * (zeta + a + b) * T i (S j) (k + 1)%Z - 2 * (b * B) * T i j k)%R.
+Proof. intros zeta a b A B Hy Fa FFa HFa T HT Hx. exact (T_rec_i zeta a b A B Hy Fa HFa T HT Hx). Qed.
+Print Assumptions C12_recurrence_i_by_parts.
+(* in the form C12_case_value takes them (Z indices; Tz i j k = T (Z.to_nat i) (Z.to_nat j) k) *)
+Theorem C12_SRj_from_the_integrals : forall (zeta a b A B : R), (0 < b * B)%R ->
+  forall (Fa : (R -> Prop) -> Prop) (FFa : ProperFilter Fa), Fa (fun u => (0 <= u)%R) ->
+  forall T : nat -> nat -> Z -> R,
+  (forall i j k, is_RInt_gen (F zeta a b A B i j k) Fa (Rbar_locally p_infty) (T i j k)) ->
+  forall j k : Z, (2 <= j)%Z ->
+  Tz T 0 j k = (Tz T 0 (j - 2)%Z k - IZR (2 * j - 1) / (2 * (b * B)) * Tz T 0 (j - 1)%Z (k - 1)%Z)%R.
+Proof. intros zeta a b A B Hy Fa FFa HFa T HT. exact (SRj_from_integrals zeta a b A B Hy Fa HFa T HT). Qed.
+Theorem C12_SRi_from_the_integrals : forall (zeta a b A B : R), (0 < b * B)%R ->
+  forall (Fa : (R -> Prop) -> Prop) (FFa : ProperFilter Fa), Fa (fun u => (0 <= u)%R) ->
+  forall T : nat -> nat -> Z -> R,
+  (forall i j k, is_RInt_gen (F zeta a b A B i j k) Fa (Rbar_locally p_infty) (T i j k)) ->
+  (0 < a * A)%R ->
+  forall i j k : Z, (1 <= i)%Z -> (1 <= j)%Z -> Fa (fun u => (0 < u)%R) ->
+  filterlim (H zeta a b A B (Z.to_nat (i - 1)) (Z.to_nat (j - 1)) k) Fa (locally 0%R) ->
+  filterlim (H zeta a b A B (Z.to_nat (i - 1)) (Z.to_nat (j - 1)) k) (Rbar_locally p_infty) (locally 0%R) ->
+  Tz T i j k = (IZR (2 + j - i - k) / (2 * (a * A)) * Tz T (i - 1)%Z j (k - 1)%Z - (b * B) / (a * A) * Tz T (i - 1)%Z (j - 1)%Z k
+                + (zeta + a + b) / (a * A) * Tz T (i - 1)%Z j (k + 1)%Z)%R.
+Proof. intros zeta a b A B Hy Fa FFa HFa T HT Hx. exact (SRi_from_integrals zeta a b A B Hy Fa HFa T HT Hx). Qed.
+Print Assumptions C12_SRi_from_the_integrals.
